@@ -256,7 +256,7 @@ def c26_root_runs(k: int) -> bool:
 
 
 CONDITIONS = [
-    Condition(c26_merge, slices=[1, 2, 3], thorough_slices=[1, 2, 3, 4], timeout=170, thorough_timeout=1200,
+    Condition(c26_merge, slices=[1, 2, 3], thorough_slices=[1, 2, 3, 4], timeout=330, thorough_timeout=1200,
               bounds="merge_dicts over n = slice dicts, key 'a' from the menu of %d values, key 'b' present or not" % NVAL),
     Condition(c26_lookup, timeout=120, bounds="get_context_value on every merged 2-dict context, paths %r" % (PATHS,)),
     Condition(c26_job_chain, slices=[1, 2], thorough_slices=[1, 2, 3], timeout=170, thorough_timeout=1200,
